@@ -95,6 +95,7 @@ type LoopSpec struct {
 type Contract struct {
 	PkgPath    string
 	Key        string // "Cipher", "Writer.Flush", "Parameters.Parse$1"
+	CallsiteRequires map[string][]*Clause // obligations at every call of a callee, over the caller's variables
 	InvokeEnsures map[string][]*Clause // assumed facts about abstract interface calls made by this function
 	InvokeAssigns map[string][]*AssignItem // extra frame of abstract interface calls made by this function
 	FuncType   string // funcval contract: the function type it applies to
@@ -140,7 +141,7 @@ type ContractSet struct {
 	Errs  []string
 }
 
-var clauseKeywords = map[string]bool{"invoke": true, "funcval": true, "impls": true, "cases": true, "func": true, "iface": true, "props": true, "requires": true, "ensures": true,
+var clauseKeywords = map[string]bool{"callsite": true, "invoke": true, "funcval": true, "impls": true, "cases": true, "func": true, "iface": true, "props": true, "requires": true, "ensures": true,
 	"assigns": true, "loop": true, "inline": true, "trusted": true, "lemma": true, "call": true, "unproved": true}
 
 // ParseContractFile reads the //@ lines of one contract file.
@@ -312,6 +313,17 @@ func ParseContractFile(path, pkgPath string, cs *ContractSet) {
 				for _, f := range strings.Fields(strings.ReplaceAll(rest, ",", " ")) {
 					cur.Inline[f] = true
 				}
+			case "callsite":
+				// callsite <callee> requires [label] <expr over the caller's parameters and function-level locals>
+				fs := strings.SplitN(rest, " ", 3)
+				if len(fs) != 3 || fs[1] != "requires" {
+					addErr(ln, "callsite needs: <callee> requires [label] <clause>")
+					continue
+				}
+				if cur.CallsiteRequires == nil {
+					cur.CallsiteRequires = map[string][]*Clause{}
+				}
+				cur.CallsiteRequires[fs[0]] = append(cur.CallsiteRequires[fs[0]], mkClause("requires", fs[2]))
 			case "invoke":
 				// invoke io.Reader.Read assigns r.raw, bytes(p): calls of that interface method made by
 				// this function use the abstract contract and may additionally modify the listed locations
@@ -1260,6 +1272,17 @@ func GenerateWrappers(pkg *packages.Package, cs *ContractSet) (string, []string)
 		for _, k := range ikeys {
 			for _, a := range c.InvokeAssigns[k] {
 				g.compileAssign(c, a, si, fpos, "loop")
+			}
+		}
+		var ckeys []string
+		for k := range c.CallsiteRequires {
+			ckeys = append(ckeys, k)
+		}
+		sort.Strings(ckeys)
+		for _, k := range ckeys {
+			for _, cl := range c.CallsiteRequires[k] {
+				// resolved in the function's outermost block: parameters, results, function-level locals
+				g.compileClause(c, cl, si, body.Rbrace-1, "loop", "bool")
 			}
 		}
 		loops := loopsOf(body)
